@@ -123,17 +123,32 @@ def merge(recs, rep, K, prop):
 
 def check(prop, tier):
     rep = Report(prop, tier)
-    b, exe, tcomp = build_e1()
-    out = os.path.join(b.dir, "e1.out")
-    recs = run_e1(exe, prop, tier, out, SEMANTIC_K)
-    stats, per_system = merge(recs, rep, SEMANTIC_K, prop)
+    precision = (prop == "C09")
+    K = float(constants()["C09_K"]) if precision else SEMANTIC_K
+    variants = [("plain", None)]
+    if precision and tier == "thorough":
+        variants.append(("O2", "-O2"))
+    allrecs, builds = [], []
+    for variant, opt in variants:
+        b, exe, tcomp = build_e1(opt=opt, variant=variant)
+        out = os.path.join(b.dir, "e1.out")
+        recs = run_e1(exe, prop, tier, out, K)
+        for r in recs:
+            r["build"] = variant
+        allrecs += recs
+        builds.append({"variant": variant, "cxxflags": " ".join(b.flags[:3]), "build_s": round(b.wall, 2), "harness_compile_s": round(tcomp, 2)})
+    stats, per_system = merge(allrecs, rep, K, prop)
     if not stats:
         sys.stderr.write("E1: no comparisons were made for %s -- vacuous run is a harness error\n" % prop)
         raise SystemExit(2)
-    rep.coverage["build_s"] = round(b.wall, 2); rep.coverage["harness_compile_s"] = round(tcomp, 2)
+    rep.coverage["builds"] = builds
     rep.assumptions += ["reference models (governing operator applied to the documented field, float128 2nd-order jets) are correct transcriptions",
-                        "parameter values restricted to the deviation alphabet {default,0,-base,2*base+1/8} around a distinct non-zero dyadic base; points to the dyadic lattice",
-                        "K=2^16 unit roundoffs of the scale S (sum of |leaf| of the expanded operator) separates roundoff from algebraic error"]
+                        "parameter values restricted to the deviation alphabet around a distinct non-zero dyadic base; points to the dyadic lattice (all inputs exactly representable in double, long double and float128)"]
+    if precision:
+        rep.assumptions.append("K=%g is calibrated (8 x the largest ratio observed on the unchanged tree over the thorough lattice), not a derived error bound; S is the condition-aware sum of |leaf| magnitudes of the reference operator" % K)
+        rep.coverage["observed_max_ratio"] = max(v["maxratio"] for v in stats.values())
+    else:
+        rep.assumptions.append("K=2^16 unit roundoffs of the scale S separates roundoff from algebraic error")
     return rep.finish()
 
 
